@@ -13,6 +13,7 @@ import collections
 import collections.abc
 import decimal
 import fractions
+import typing
 
 from extract import doctable, scalars
 from harness import morph
@@ -335,6 +336,11 @@ def builtin_subclass_union_probes(ctx: Ctx, eng):
         (Union[Sequence[str], str, None], MyStr("abc"), str),
         (Union[int, bool, str], MyInt(5), int),
         (Union[float, int, bool], True, bool),
+        # an Any case takes every value whose class is no other case (Any is a class since 3.11, but in no MRO)
+        (Union[typing.Any, list[int]], "x", typing.Any),
+        (Union[typing.Any, list[int]], [1, 2], list[int]),
+        (Union[typing.Any, dict[str, int], None], 1.5, typing.Any),
+        (Union[typing.Any, datetime.date], MyDate(2020, 1, 2), datetime.date),
     ]
     for hint, x, case in probes:
         for m in morph.MODES:
@@ -343,7 +349,8 @@ def builtin_subclass_union_probes(ctx: Ctx, eng):
             ctx.note_case({"p": repr(hint), "x": repr(x), "m": m}, nontrivial=True, kind="union-dump:builtin-subclass")
             if want["r"] == "ok" and got != want:
                 ctx.fail("union-dump:nearest-ancestor", f"[{m}] {x!r} ({type(x).__name__}) through {hint!r} is not dumped by the "
-                         f"dumper of its nearest ancestor case {case.__name__}: {got}", {"hint": repr(hint), "value": repr(x), "mode": m})
+                         f"dumper of its nearest ancestor case {getattr(case, '__name__', case)}: {got}",
+                         {"hint": repr(hint), "value": repr(x), "mode": m})
                 break
 
 
